@@ -56,11 +56,19 @@ type vStream struct {
 	inSend chan struct{} // closed when a gated Send has been entered
 	once   sync.Once
 	fail   bool // Send returns an error (broken transport)
+	// window hook: when set, the first Context() call made AFTER the context has ended (the handler has woken on
+	// ctx.Done() and asks for ctx.Err(), i.e. it is between waking and its deferred removal) announces itself on inWindow
+	// and waits for winRelease
+	winHold    bool
+	inWindow   chan struct{}
+	winRelease chan struct{}
+	winOnce    sync.Once
 }
 
 func vNewStream(stalled bool) *vStream {
 	ctx, cancel := context.WithCancel(context.Background())
-	s := &vStream{ctx: ctx, cancel: cancel, arrive: make(chan struct{}, 1<<16), inSend: make(chan struct{})}
+	s := &vStream{ctx: ctx, cancel: cancel, arrive: make(chan struct{}, 1<<16), inSend: make(chan struct{}),
+		inWindow: make(chan struct{}), winRelease: make(chan struct{})}
 	if stalled {
 		s.gate = make(chan struct{})
 	}
@@ -89,7 +97,16 @@ func (s *vStream) Send(r *spyv1.SubscribeSignedVAAResponse) error {
 	s.arrive <- struct{}{}
 	return nil
 }
-func (s *vStream) Context() context.Context     { return s.ctx }
+func (s *vStream) Context() context.Context {
+	if s.winHold && s.ctx.Err() != nil {
+		first := false
+		s.winOnce.Do(func() { first = true; close(s.inWindow) })
+		if first {
+			<-s.winRelease
+		}
+	}
+	return s.ctx
+}
 func (s *vStream) SetHeader(metadata.MD) error  { return nil }
 func (s *vStream) SendHeader(metadata.MD) error { return nil }
 func (s *vStream) SetTrailer(metadata.MD)       {}
@@ -157,11 +174,14 @@ func vKeys(s *spyServer, deadline time.Duration) (map[string]*subscription, bool
 
 // subscribe starts the real handler; returns once the subscription is registered, the call returned, or the deadline passed.
 func vSubscribe(s *spyServer, id int, req *spyv1.SubscribeSignedVAARequest, stalled bool, deadline time.Duration) (*vSub, string) {
+	return vSubscribeWith(s, id, req, vNewStream(stalled), deadline)
+}
+
+func vSubscribeWith(s *spyServer, id int, req *spyv1.SubscribeSignedVAARequest, st *vStream, deadline time.Duration) (*vSub, string) {
 	before, ok := vKeys(s, deadline)
 	if !ok {
 		return nil, "blocked"
 	}
-	st := vNewStream(stalled)
 	vs := &vSub{id: id, stream: st, done: make(chan error, 1)}
 	go func() {
 		defer func() {
@@ -263,14 +283,19 @@ type vEmitter struct {
 }
 
 func (h *vHarness) mkVAA(e vEmitter) []byte {
+	return h.mkVAAn(e, 1+h.r.Intn(40), h.r.Intn(3))
+}
+
+// mkVAAn: payload length and signature count fixed, so that all VAAs of a scenario have the same encoded length
+func (h *vHarness) mkVAAn(e vEmitter, plen, nsig int) []byte {
 	r := h.r
 	v := &vaa.VAA{Version: 1, GuardianSetIndex: uint32(r.Intn(3)), Nonce: r.Uint32(), Sequence: uint64(r.Intn(1 << 20)),
 		ConsistencyLevel: uint8(r.Intn(256)), EmitterChain: vaa.ChainID(e.chain), TargetChain: vaa.ChainID(r.Intn(4)),
 		Timestamp: time.Unix(int64(r.Uint32()), 0)}
 	v.EmitterAddress = vaa.Address(e.addr)
-	v.Payload = make([]byte, 1+r.Intn(40))
+	v.Payload = make([]byte, plen)
 	r.Read(v.Payload)
-	for i := 0; i < r.Intn(3); i++ {
+	for i := 0; i < nsig; i++ {
 		sg := &vaa.Signature{Index: uint8(i)}
 		r.Read(sg.Signature[:])
 		v.Signatures = append(v.Signatures, sg)
@@ -758,6 +783,237 @@ func vRegState(r string) string {
 	return r
 }
 
+// ---------------------------------------------------------------- slow (not stalled) subscriber: exact bytes
+
+func vIdx(pubs [][]byte, got [][]byte) string {
+	if len(got) == 0 {
+		return "-"
+	}
+	p := make([]string, len(got))
+	for i, m := range got {
+		p[i] = "x"
+		for j, b := range pubs {
+			if bytes.Equal(m, b) {
+				p[i] = strconv.Itoa(j)
+				break
+			}
+		}
+	}
+	return strings.Join(p, ",")
+}
+
+// slowScenario: subscriber A's client is slow for its FIRST message (Send waits on a gate the harness opens later), so that
+// message is still "in flight" and a second one sits in A's one-slot channel while further VAAs - all of the same encoded
+// length, with different payloads and partly from another emitter - are published; B reads promptly. Afterwards the exact
+// byte strings each subscriber received are compared with what was published (as indexes into the published list; `x` = bytes
+// that were never published). The gate is opened before a second matching VAA has to wait for A, so nobody is stalled.
+func (h *vHarness) slowScenario(cid string) {
+	r := h.r
+	d := h.deadline
+	s := newSpyServer(zap.NewNop())
+	var e1, e2 vEmitter
+	e1.chain, e2.chain = 2, uint16(2+r.Intn(2)*3)
+	r.Read(e1.addr[:])
+	r.Read(e2.addr[:])
+	filtered := r.Intn(3) != 0
+	reqAll := &spyv1.SubscribeSignedVAARequest{}
+	reqA := reqAll
+	fA := "-"
+	if filtered {
+		hx := hex.EncodeToString(e1.addr[:])
+		reqA = &spyv1.SubscribeSignedVAARequest{Filters: []*spyv1.FilterEntry{{Filter: &spyv1.FilterEntry_EmitterFilter{
+			EmitterFilter: &spyv1.EmitterFilter{ChainId: publicrpcv1.ChainID(e1.chain), EmitterAddress: hx}}}}}
+		fA = vFilterStr(uint32(e1.chain), hx)
+	}
+	a, ra := vSubscribe(s, 0, reqA, true, d)
+	b, rb := vSubscribe(s, 1, reqAll, false, d)
+	if ra != "ok" || rb != "ok" {
+		h.emit("spyslow %s setup=failed:%s/%s\n", cid, ra, rb)
+		return
+	}
+	plen, nsig := 8+r.Intn(24), r.Intn(3)
+	var pubs [][]byte
+	var decs, ress []string
+	opened := false
+	open := func() {
+		if !opened {
+			opened = true
+			close(a.stream.gate)
+		}
+	}
+	publish := func(e vEmitter) {
+		bts := h.mkVAAn(e, plen, nsig)
+		pubs = append(pubs, bts)
+		decs = append(decs, fmt.Sprintf("%d:%s", e.chain, hex.EncodeToString(e.addr[:])))
+		res, late := vPublish(s, bts, d)
+		if late != nil {
+			open() // let it go on
+			<-late
+			h.stuck++
+		}
+		ress = append(ress, res)
+	}
+	publish(e1) // A's handler takes it and waits inside Send
+	entered := vWait(a.stream.inSend, d)
+	if filtered {
+		for i := r.Intn(3); i > 0; i-- {
+			publish(e2) // not for A: must leave A's message in flight untouched
+		}
+	}
+	publish(e1) // sits in A's channel
+	if filtered {
+		for i := r.Intn(3); i > 0; i-- {
+			publish(e2)
+		}
+	}
+	open()
+	publish(e1)
+	if r.Intn(2) == 0 {
+		publish(e2)
+	}
+	agot, abar := vBarrier(a, d)
+	bgot, bbar := vBarrier(b, d)
+	for _, x := range []*vSub{a, b} {
+		x.stream.cancel()
+		select {
+		case <-x.done:
+		case <-time.After(d):
+		}
+	}
+	b01 := map[bool]int{false: 0, true: 1}
+	h.emit("spyslow %s filterA=%s len=%d entered=%d pubs=%s res=%s agot=%s bgot=%s abar=%d bbar=%d\n", cid, fA, len(pubs[0]), b01[entered],
+		strings.Join(decs, ";"), strings.Join(ress, ","), vIdx(pubs, agot), vIdx(pubs, bgot), b01[abar], b01[bbar])
+}
+
+// ---------------------------------------------------------------- a subscriber that read everything and disconnects
+
+// departScenario: A has received everything it was sent and then disconnects. Its handler wakes on ctx.Done(); the fake
+// stream holds it at its next Context() call (the one for ctx.Err()), i.e. between waking and the deferred removal, and
+// tells the harness. In that window one VAA matching A is published; shortly after, the handler is let go (it then wants the
+// mutex for its removal). Nobody is stalled here: Publish, A's removal and delivery to B must all complete.
+func (h *vHarness) departScenario(cid string, filtered bool) {
+	s := newSpyServer(zap.NewNop())
+	d := h.deadline
+	e := vEmitter{chain: 2}
+	for i := range e.addr {
+		e.addr[i] = byte(0x40 + i)
+	}
+	reqAll := &spyv1.SubscribeSignedVAARequest{}
+	reqA := reqAll
+	fA := "-"
+	if filtered {
+		hx := hex.EncodeToString(e.addr[:])
+		reqA = &spyv1.SubscribeSignedVAARequest{Filters: []*spyv1.FilterEntry{{Filter: &spyv1.FilterEntry_EmitterFilter{
+			EmitterFilter: &spyv1.EmitterFilter{ChainId: publicrpcv1.ChainID(e.chain), EmitterAddress: hx}}}}}
+		fA = vFilterStr(uint32(e.chain), hx)
+	}
+	stA := vNewStream(false)
+	stA.winHold = true
+	a, ra := vSubscribeWith(s, 0, reqA, stA, d)
+	b, rb := vSubscribe(s, 1, reqAll, false, d)
+	if ra != "ok" || rb != "ok" {
+		h.emit("spydepart %s setup=failed:%s/%s\n", cid, ra, rb)
+		return
+	}
+	v0, v1 := h.mkVAA(e), h.mkVAA(e)
+	p0, late0 := vPublish(s, v0, d)
+	if late0 != nil {
+		h.emit("spydepart %s setup=failed:first-publish-%s\n", cid, p0)
+		go func() { <-late0 }()
+		return
+	}
+	_, okA := vBarrier(a, d) // A and B have read everything
+	_, okB := vBarrier(b, d)
+	a.stream.cancel() // A disconnects
+	inWin := vWait(stA.inWindow, d)
+	pc := make(chan string, 1)
+	go func() {
+		defer func() {
+			if e := recover(); e != nil {
+				pc <- "panic"
+			}
+		}()
+		if err := s.Publish(v1); err != nil {
+			pc <- "err"
+		} else {
+			pc <- "nil"
+		}
+	}()
+	time.Sleep(50 * time.Millisecond)
+	close(stA.winRelease) // the handler goes on to its deferred removal
+	pub := "blocked"
+	var late chan string
+	select {
+	case r := <-pc:
+		if r == "nil" {
+			pub = "done"
+		} else {
+			pub = r
+		}
+	case <-time.After(d):
+		late = pc
+	}
+	rem := "blocked"
+	select {
+	case err := <-a.done:
+		a.done <- err
+		if keys, ok := vKeys(s, d); ok {
+			if _, still := keys[a.key]; !still {
+				rem = "done"
+			}
+		}
+	case <-time.After(d / 4):
+	}
+	bgot := false
+	endB := time.After(d / 4)
+waitB:
+	for {
+		b.stream.mu.Lock()
+		for _, m := range b.stream.got {
+			if bytes.Equal(m, v1) {
+				bgot = true
+			}
+		}
+		b.stream.mu.Unlock()
+		if bgot {
+			break
+		}
+		select {
+		case <-b.stream.arrive:
+		case <-endB:
+			break waitB
+		}
+	}
+	// recovery
+	stop := make(chan struct{})
+	go func() {
+		for {
+			select {
+			case <-stop:
+				return
+			case <-a.sub.ch:
+			case <-time.After(time.Millisecond):
+			}
+		}
+	}()
+	if late != nil {
+		<-late
+	}
+	rec := 1
+	for _, x := range []*vSub{a, b} {
+		x.stream.cancel()
+		select {
+		case <-x.done:
+		case <-time.After(d):
+			rec = 0
+		}
+	}
+	close(stop)
+	b01 := map[bool]int{false: 0, true: 1}
+	h.emit("spydepart %s filterA=%s caughtup=%d inwindow=%d pub=%s rem=%s bgot=%s deadline_ms=%d recovered=%d\n", cid, fA,
+		b01[okA && okB], b01[inWin], pub, rem, vState(bgot), d.Milliseconds(), rec)
+}
+
 func TestVerifSpy(t *testing.T) {
 	seed, _ := strconv.ParseInt(os.Getenv("VERIF_SEED"), 10, 64)
 	thorough := os.Getenv("VERIF_TIER") == "thorough"
@@ -779,10 +1035,14 @@ func TestVerifSpy(t *testing.T) {
 		variant  string
 		filtered bool
 	}
-	scs := []sc{{"stall", false}, {"depart", false}, {"stall", true}}
+	scs := []sc{{"stall", false}, {"depart", false}, {"stall", true}, {"window", false}, {"window", true}}
 	ids := make([]string, len(scs))
 	for i := range scs {
-		ids[i] = h.cid("stall")
+		if scs[i].variant == "window" {
+			ids[i] = h.cid("depart")
+		} else {
+			ids[i] = h.cid("stall")
+		}
 	}
 	outs := make([]string, len(scs))
 	for i, x := range scs {
@@ -791,13 +1051,20 @@ func TestVerifSpy(t *testing.T) {
 			defer wg.Done()
 			var buf bytes.Buffer
 			h2 := &vHarness{r: rand.New(rand.NewSource(seed + int64(i) + 1000)), w: bufio.NewWriter(&buf), deadline: h.deadline}
-			h2.stallScenario(ids[i], x.variant, x.filtered)
+			if x.variant == "window" {
+				h2.departScenario(ids[i], x.filtered)
+			} else {
+				h2.stallScenario(ids[i], x.variant, x.filtered)
+			}
 			h2.w.Flush()
 			outs[i] = buf.String()
 		}(i, x)
 	}
 	for i := 0; i < nseq && h.stuck < 3; i++ {
 		h.deliverySequence()
+		if i%2 == 0 && h.stuck < 3 {
+			h.slowScenario(h.cid("slow"))
+		}
 	}
 	wg.Wait()
 	for _, o := range outs {
